@@ -387,14 +387,27 @@ def app_failure_cases(role):
     return cases
 
 
+EXC_SHAPES = ('int-arg', 'exc-arg', 'no-args', 'bytes-arg', 'non-ascii', 'none-arg', 'tuple-arg', 'long-text')
+
+
+def make_exc(shape):
+    return {'text': lambda: AppRaise('handler raises'), 'int-arg': lambda: KeyError(7), 'exc-arg': lambda: RuntimeError(ValueError('inner')),
+            'no-args': lambda: Exception(), 'bytes-arg': lambda: Exception(b'\xff\xfebytes'), 'non-ascii': lambda: Exception('h\u00e9llo \u2713'),
+            'none-arg': lambda: Exception(None), 'tuple-arg': lambda: KeyError(('a', 1)), 'long-text': lambda: Exception('x' * 70000)}[shape]()
+
+
 def app_case(role, flavour, name):
     tag = '%s/%s %s' % (role, flavour, name)
+    shape = 'text'
+    if '@' in name:
+        name, shape = name.split('@')
 
     def go():
         import asyncio
         from rsocket.helpers import create_future, create_error_future
         extra = {}
         trigger = None
+        post = None
         off = set()
         if role == 'server':
             base_rs, base_rr = None, None
@@ -417,9 +430,9 @@ def app_case(role, flavour, name):
                     if aw:
                         async def later():
                             await asyncio.sleep(0)
-                            raise AppRaise('handler raises after await')
+                            raise make_exc(shape)
                         return later()
-                    raise AppRaise('handler raises')
+                    raise make_exc(shape)
 
                 raw = {'request_response': R.enc_request(R.REQUEST_RESPONSE, sid, b'boom'),
                        'request_stream': R.enc_request(R.REQUEST_STREAM, sid, b'boom', n=2),
@@ -430,8 +443,18 @@ def app_case(role, flavour, name):
                 off = {0} if meth == 'on_metadata_push' else {sid}
                 frames = [raw]
             elif name == 'future-fails':
-                extra['request_response'] = ('special', lambda h, p: create_error_future(RuntimeError('late failure')))
+                extra['request_response'] = ('special', lambda h, p: create_error_future(make_exc(shape) if shape != 'text' else RuntimeError('late failure')))
                 frames, off = [R.enc_request(R.REQUEST_RESPONSE, sid, b'boom')], {sid}
+            elif name == 'publisher-errors':
+                box = {}
+
+                def mkpub(h, p):
+                    box['pub'] = RecPublisher(h.w, h.ep, 'errpub')
+                    return box['pub']
+
+                extra['request_stream'] = ('special', mkpub)
+                frames, off = [R.enc_request(R.REQUEST_STREAM, sid, b'boom', n=2)], {sid}
+                post = lambda: box['pub'].error(make_exc(shape))
             elif name.startswith('publisher-raises-'):
                 where = name.split('-')[2]
                 extra['request_stream'] = ('special', lambda h, p: RecPublisher(h.w, h.ep, 'badpub', raise_in=(where,)))
@@ -532,6 +555,9 @@ def app_case(role, flavour, name):
             b_.mark = len(b_.s.log)
             for raw in frames:
                 b_.s.peer(raw)
+            if 'post' in dir() and post is not None:
+                post()
+                b_.s.settle()
         else:
             # client side: application subscriber of a requested stream raises in each callback
             where = name.split('-')[-1]
@@ -573,7 +599,10 @@ APP_CASES_SERVER = (['handler-%s-raises%s' % (m, a) for m in ('request_response'
                        'generator-raises', 'async-generator-raises', 'channel-subscriber-raises-S', 'channel-subscriber-raises-N',
                        'channel-subscriber-raises-C', 'channel-subscriber-raises-E']
                     + ['router-raises-%s' % m for m in ('request_response', 'request_stream', 'request_channel', 'request_fire_and_forget', 'on_metadata_push')]
-                    + ['%s-%s' % (a, wh) for a in ('rx3', 'rx4') for wh in ('observable-errors-at-once', 'observable-errors-after-one', 'response-errors')])
+                    + ['%s-%s' % (a, wh) for a in ('rx3', 'rx4') for wh in ('observable-errors-at-once', 'observable-errors-after-one', 'response-errors')]
+                    + ['publisher-errors']
+                    + ['%s@%s' % (c, sh) for sh in EXC_SHAPES for c in ('handler-request_response-raises', 'handler-request_stream-raises-after-await',
+                                                                         'handler-request_channel-raises', 'future-fails', 'publisher-errors')])
 APP_CASES_CLIENT = ['stream-subscriber-raises-S', 'stream-subscriber-raises-N', 'stream-subscriber-raises-C', 'stream-subscriber-raises-E']
 
 
